@@ -1,8 +1,13 @@
 """C13 — pow / log / root are exact: case generator.
 
 Case lines:  `opow|cpow|spow|wpow|pow bits a e`, `log|clog bits x base`, `log2|log10|clog2|clog10 bits x`,
-`root bits x degree` (all numbers hex), `apow2i bits n` (approx_pow2 of the signed decimal integer n), `alog2 bits x`.  The harness prints the float-derived first guess of log/root next to
+`root bits x degree` (all numbers hex), `apow2i bits n` (approx_pow2 of the signed decimal integer n), `apow2 bits <raw f64 bits>`, `alog2 bits x`.  The harness prints the float-derived first guess of log/root next to
 the result; the Lean driver runs the model from that guess and evaluates the theorems' hypotheses on it."""
+import math
+import os
+import random
+import struct
+
 from vgen import *
 
 BIN = 'c13'
@@ -15,11 +20,15 @@ RULE = ('corpus (defect witnesses, doc examples, slow-convergence root example),
         '37 widths: pow with a^e straddling 2^bits (largest non-overflowing exponent +-1, largest non-overflowing base +-1), bases '
         '0,1,2,3,10,2^32,MAX, exponents 0,1,2,63,64,65,bits+-1,huge; log with value = base^k-1/base^k/base^k+1, half-way values '
         '(estimate near x.5), base >= value, base = 2^k, bases 2,3,10,2^32,MAX, zero/one operands; root with value = r^k-1/r^k/r^k+1, '
-        'MAX, degree in 1..bits+2, degree 0, degree >= bits, huge degree; approx_pow2 on all integer exponents -3..bits+3 and approx_log2 bracket checks; '
+        'MAX, degree in 1..bits+2, degree 0, degree >= bits, huge degree; approx_pow2 on all integer exponents -3..bits+3 and on fractional exponents at the thresholds / rounding boundaries '
+        '(integer post-processing model, float pre-processing recomputed in the harness), approx_log2 bracket checks; '
         'all cases shuffled; non-trivial = width>0 and not all operands zero; distinct by case hash')
 TRUSTED = ['libm (log2, exp2) and the host FPU: NOT modelled; the float-derived first guess of log/root is a parameter of the model, '
            'read back from the implementation through verif_hooks::tap and checked against the theorems\' hypothesis on every case',
-           'root: the integer first guess is obtained in the harness by calling the real Uint::approx_pow2 on the tapped f64']
+           'root: the integer first guess is obtained in the harness by calling the real Uint::approx_pow2 on the tapped f64',
+           'apow2: the float pre-processing of approx_pow2 (threshold comparisons, trunc, fract, exp2, cast to u64) is recomputed in the harness '
+           'with the same libm calls; only the integer post-processing is modelled and proved',
+           'apow2i assumes exp2(0.0) = 1.0 and exact i64 -> f64 conversion for |n| < 2^53; alog2 only checks floor(log2 x) <= result <= floor(log2 x)+1']
 ASSUMPTIONS = ['log_spec assumes est < 2^bits and (est <= floor_log+1 or base^est < 2^bits) for the float estimate; monitored per case',
                'root_spec assumes guessOk (first guess >= 1 and (k-1)*max(g,2s) + x / min(g,s)^(k-1) < 2^bits); monitored per case',
                'L2 model: loop bodies use the value-level specs of overflowing_mul / checked_add / div / cmp / shl (C02, C01, C03, C05)']
@@ -259,11 +268,47 @@ def approx_cases(rng, tier):
                 yield 'alog2 %d %x' % (bits, x)
 
 
+def f64bits(x):
+    return struct.unpack('<Q', struct.pack('<d', x))[0]
+
+
+def bits_f64(b):
+    return struct.unpack('<d', struct.pack('<Q', b))[0]
+
+
+def apow2_cases(rng, tier):
+    """approx_pow2 on fractional exponents: thresholds -1, log2(1.5), BITS; rounding boundaries 2^exp ~ n + 1/2;
+    exponents around 63 (the two integer paths); doc examples; random"""
+    n = 150 if tier == 'quick' else 3000
+    for bits in GRID_ALL:
+        es = [-2.0, -1.0, -0.9999999999999999, -1.0000000000000002, -0.0, 0.0, 0.5, 0.5849625007211562, 0.5849625007211561,
+              0.5849625007211563, 1.0, 1.6, 2.0, 10.385, 62.5, 62.99999999999999, 63.0, 63.00000000000001, 63.5, 64.0,
+              float(bits), bits - 0.5, bits + 0.5, bits - 1e-9, bits + 1e-9, bits - 1.0, bits / 2.0, bits / 3.0]
+        for _ in range(n):
+            c = rng.randrange(5)
+            if c == 0:
+                es.append(rng.uniform(-3, bits + 2))
+            elif c == 1:          # rounding boundary: 2^e close to k + 1/2
+                k = rng.randrange(1, 1 << rng.randrange(1, min(max(bits, 2), 50)))
+                e = math.log2(k + 0.5)
+                es.append(bits_f64(max(0, f64bits(e) + rng.randrange(-3, 4))))
+            elif c == 2:          # near an integer exponent
+                k = rng.randrange(0, bits + 2)
+                es.append(bits_f64(max(0, f64bits(float(k) if k else 0.0) + rng.randrange(-2, 3))) if k else rng.uniform(0, 1e-9))
+            elif c == 3:
+                es.append(rng.uniform(60, 66))
+            else:
+                es.append(rng.uniform(0, min(bits + 1, 64)))
+        for e in es:
+            yield 'apow2 %d %x' % (bits, f64bits(e))
+
+
 def gen(rng, tier):
     """all cases, shuffled (deterministically): non-terminating cases of a broken `root`/`log` cost a
     time-out each, so they must be spread evenly over the parallel chunks"""
     out = list(exhaustive(tier))
     out += list(approx_cases(rng, tier))
+    out += list(apow2_cases(rng, tier))
     n = 60000 if tier == 'quick' else 1500000
     k = 0
     while k < n:
@@ -289,3 +334,33 @@ def gen(rng, tier):
                 k += 1
     rng.shuffle(out)
     return out
+
+
+def extra_checks(tier, rng, findings):
+    """thorough: repeat the corpus and a quick-tier sample against a `--release` build of the harness
+    (debug assertions and overflow checks off: `assume!` becomes unreachable_unchecked, wrapping is silent)."""
+    if tier != 'thorough':
+        return {}
+    import vlib
+    binpath, secs = vlib.build_harness(BIN, release=True)
+    drv = os.path.join(vlib.LEAN, '.lake', 'build', 'bin', DRV)
+    cases = []
+    cpath = os.path.join(vlib.ROOT, 'corpus', 'C13.cases')
+    if os.path.exists(cpath):
+        cases += [l.strip() for l in open(cpath) if l.strip() and not l.startswith('#')]
+    cases += gen(random.Random(rng.getrandbits(32)), 'quick')
+    impl, _ = vlib.run_impl(binpath, cases, timeout=TIMEOUT)
+    ms = vlib.run_model(drv, cases, impl)
+    viol = []
+    known = {}
+    for c, i, (m, sp) in zip(cases, impl, ms):
+        k = vlib.classify(c, i, m, sp)
+        if k is None:
+            continue
+        tag = finding_tag(c, i, m, sp)
+        if tag and findings.match('C13', tag):
+            known.setdefault(tag, []).append((c, i, m, sp))
+        else:
+            viol.append((k, c, i + '   [release profile]', m, sp))
+    return {'violations': viol, 'known': known,
+            'coverage': {'release_profile': {'cases': len(cases), 'build_s': round(secs, 1), 'mismatches': len(viol)}}}
